@@ -159,6 +159,11 @@ impl<'d> Ctx<'d> {
         expected: impl Into<String>,
         observed: impl Into<String>,
     ) {
+        // signatures stay narrow whatever a monitor puts into the feature: known findings are keyed on them
+        let feature = match feature.char_indices().nth(120) {
+            Some((at, _)) => &feature[..at],
+            None => feature,
+        };
         let signature = format!("{}|{}|{}|{}", self.prop, clause, subject, feature);
         let n = self.violation_counts.entry(signature.clone()).or_insert(0);
         *n += 1;
